@@ -124,9 +124,117 @@ def checkValid (c : MaskCode) (rc : RankCert) : Bool :=
   allPairs c.logZ c.logZ (fun a b => sympMask c.n a b == 0) &&
   rankCertOK c rc
 
+/-! ### Kernel-efficient checker
+
+`checkValid` above is the readable specification-level checker; it is cubic in the number of
+rows (`getD` inside double loops) and evaluates one xor-fold per pair of rows.
+`checkValidFast` does the same job with a number of kernel reduction steps that is *linear*
+in the number of rows: all rows of a stack are packed into the lanes of one big number
+(`packLanes`, lane width `L = 2^s ≥ 2n` bits), and the symplectic products of a vector `d`
+with *all* rows are computed at once by one `&&&`, `s` xor-folds and one mask (`laneSymp`):
+bit `i·L` of the result is `symp rows[i] d`.  The span check `stabs[i] = xorSelect basis
+combo[i]` is done for all `i` at once by `comboAcc` (one shift, one mask, one multiplication
+and one xor per basis row). -/
+
+/-- lanes: entry `i` (reduced modulo `W = 2^L`) occupies bits `[i·L, (i+1)·L)` -/
+def packLanes (W : Nat) : List Nat → Nat
+  | [] => 0
+  | x :: xs => W * packLanes W xs + x % W
+
+/-- `m` lanes holding `1` -/
+def repunit (W : Nat) : Nat → Nat
+  | 0 => 0
+  | m + 1 => W * repunit W m + 1
+
+/-- xor-folding that keeps the whole word: bit `p` of `foldAll s x` is the parity of bits
+    `p … p + 2^s - 1` of `x` -/
+def foldAll : Nat → Nat → Nat
+  | 0, x => x
+  | s + 1, x => foldAll s (x ^^^ (x >>> (2 ^ s)))
+
+/-- Z block (reduced to `n` bits) low, X block high; `lo = 2^n` -/
+def swapMask (n lo b : Nat) : Nat := lo * (b % lo) + (b >>> n) % lo
+
+/-- all symplectic products `symp rows[i] d` at once: `P = packLanes W rows`,
+    `R = repunit W rows.length`, `sd = swapMask n lo d`; bit `i·L` of the result is the
+    product with row `i`, all other bits are 0 -/
+def laneSymp (s R P sd : Nat) : Nat := foldAll s (P &&& (R * sd)) &&& R
+
+/-- Identity.  The unused index `i` makes the terms the kernel caches during evaluation
+    distinct: the kernel hashes a `Nat` literal by its low 32 bits, so all rows with a zero
+    low word (every Z-type row) collide in its reduction cache, which costs a factor 10–40. -/
+def tagNat (_i d : Nat) : Nat := d
+
+/-- every `d` in the list commutes with every packed row (`i` = running index, for `tagNat`) -/
+def zeroRows (s n lo R P : Nat) : List Nat → Nat → Bool
+  | [], _ => true
+  | d :: ds, i =>
+    laneSymp s R P (swapMask n lo (tagNat i d)) == 0 && zeroRows s n lo R P ds (i + 1)
+
+/-- `ds[j]` anticommutes with packed row `j` and commutes with the others
+    (`tgt = W^j` is the expected result for the current index `j`) -/
+def deltaRows (s n lo W R P : Nat) : List Nat → Nat → Nat → Bool
+  | [], _, _ => true
+  | d :: ds, j, tgt =>
+    laneSymp s R P (swapMask n lo (tagNat j d)) == tgt &&
+      deltaRows s n lo W R P ds (j + 1) (W * tgt)
+
+/-- the rows at the (increasing) indices `idx`, walking the rows once; `off` is the index of
+    the head of `rows`.  The result is a sublist of `rows` by construction. -/
+def pickSorted : List Nat → List Nat → Nat → List Nat
+  | _, [], _ => []
+  | [], _ :: _, _ => []
+  | i :: is, x :: xs, off =>
+    if i = off then x :: pickSorted is xs (off + 1) else pickSorted (i :: is) xs (off + 1)
+
+/-- lanes of `xorSelect basis combo[i]`: `C` holds the combos in lanes (shifted right by one
+    for every basis row consumed), `R` is the repunit -/
+def comboAcc (R : Nat) : List Nat → Nat → Nat
+  | [], _ => 0
+  | b :: bs, C => ((C &&& R) * b) ^^^ comboAcc R bs (C >>> 1)
+
+/-- Kernel-efficient version of `checkValid` (same clauses; sound by
+    `checkValidFast_sound`). -/
+def checkValidFast (c : MaskCode) (rc : RankCert) : Bool :=
+  let n := c.n
+  let lo := 2 ^ n
+  let s := foldsFor (2 * n)
+  let W := 2 ^ (2 ^ s)
+  let basis := pickSorted rc.basisIdx c.stabs 0
+  let S := packLanes W c.stabs
+  let RS := repunit W c.stabs.length
+  let LX := packLanes W c.logX
+  let RX := repunit W c.logX.length
+  let LZ := packLanes W c.logZ
+  let RZ := repunit W c.logZ.length
+  rowsFit n c.stabs &&
+  c.logX.length == c.k && c.logZ.length == c.k &&
+  basis.length + c.k == n &&
+  zeroRows s n lo RS S c.stabs 0 &&
+  zeroRows s n lo RS S c.logX 0 &&
+  zeroRows s n lo RS S c.logZ 0 &&
+  deltaRows s n lo W RZ LZ c.logX 0 1 &&
+  zeroRows s n lo RX LX c.logX 0 &&
+  zeroRows s n lo RZ LZ c.logZ 0 &&
+  rc.dual.length == basis.length &&
+  deltaRows s n lo W (repunit W basis.length) (packLanes W basis) rc.dual 0 1 &&
+  rc.combo.length == c.stabs.length &&
+  comboAcc RS basis (packLanes W rc.combo) == S
+
 /-- the reported distance is the minimum weight of the listed logicals -/
 def reportedDistanceOK (c : MaskCode) : Bool :=
   match listMin ((c.logX ++ c.logZ).map (weightMask c.n)) with
+  | some m => m == c.d
+  | none => false
+
+/-- `rows.map (weightMask n)` with the rows tagged by their index (see `tagNat`) -/
+def weightsIdx (n : Nat) : List Nat → Nat → List Nat
+  | [], _ => []
+  | a :: as, i => weightMask n (tagNat i a) :: weightsIdx n as (i + 1)
+
+/-- kernel-efficient `reportedDistanceOK` (equal to it: `reportedDistanceFast_eq`) -/
+def reportedDistanceFast (c : MaskCode) : Bool :=
+  match listMin (weightsIdx c.n (c.logX ++ c.logZ) 0) with
   | some m => m == c.d
   | none => false
 
